@@ -14,6 +14,11 @@ RULE = ('corpus; structured random (array, label-map) pairs of 1-3 D: labeled_su
         'is_same_labeling (permuted / merged / background-changed / unrelated pairs), remove_regions, remove_bordering '
         '(rsize int/tuple, 0 and larger than the image, out variants), filter_labeled; borders x 6 modes x '
         'cross/box/arbitrary elements (incl. larger than the image), border(i,j), bwperim n=4/8. '
+        'Round 4: bbox/croptobbox with border (None, 0, positive up to beyond the image, negative) and as_slice, '
+        'labeled.bbox(as_slice), labeled_sum result length with minlength, labeled_size on bool / 64-bit labels beyond 2^32, '
+        'fullhistogram on all 11 dtypes (signed and float must be refused), is_same_labeling on unequal shapes (same pixels '
+        'reshaped, transposed extents, one map shorter/longer), remove_regions_where (tables shorter/longer than the label '
+        'range, bool and int tables), labeled.perimeter (2-D blobs, strokes, isolated pixels; n=4/8; 6 modes; 7 layouts). '
         'Non-trivial = the label map has at least two distinct values; distinct = distinct protocol line + layout.')
 ASSUMPTIONS = ['no NaN data (an order is taken by labeled_max/min)',
                'labeled_sum is compared with the exact sum only when that sum is representable in the array dtype '
@@ -28,7 +33,15 @@ ASSUMPTIONS = ['no NaN data (an order is taken by labeled_max/min)',
                'fullhistogram: unsigned/bool images with max < 2^12 (one bin per value)',
                'remove_bordering: rsize >= 0', 'filter_labeled: min_size/max_size None or >= 1',
                'border(i, j): i != j, both representable in the label dtype',
-               'center_of_mass: |values| < 2^53 (the kernel converts to double)']
+               'center_of_mass: |values| < 2^53 (the kernel converts to double)',
+               'label values are representable in a C int where the wrapper converts the map to intc (relabel, is_same_labeling, '
+               'remove_regions[_where], labeled_sum/max/min, filter_labeled: numpy wraps larger values silently); labeled_size '
+               'reduces labels modulo 2^32 (modelled; compared with the plain counts only for labels < 2^32)',
+               'bbox/croptobbox with border: the crop is compared with the specification (box grown by border, clipped) for '
+               'border >= 0 and an image with a non-zero pixel; negative borders and the all-zero image with the model only',
+               'labeled.perimeter: 2-D non-empty images; the returned double is compared with n1 + n2*sqrt(2) + n3*(1+sqrt(2))/2 '
+               'to 1e-6 relative (integer counts, weights at least 0.2 apart: no near-tie possible)',
+               'fullhistogram on signed/float dtypes: only "an exception is raised" is compared (model: histAccepts)']
 TRUSTED = ['numpy (array construction, layout views)']
 
 FLOATS = ['float32', 'float64']
@@ -161,7 +174,18 @@ def _run(c, drv):
             got = [0 if g == z else g for g in got]
             spec = [0 if g == z else g for g in spec]
             model = [0 if g == z else g for g in model]
-            mask = None if op == 'sum' else [k > 0 for k in cnt]
+            if op == 'sum':
+                # exactness domain of C13_labeled_sum_rounded_exact_of_abs_sum: the scaled integers of a label sum, in
+                # absolute value, to at most 2^53 (float64) / 2^24 (float32: 24-bit significand); outside it a slot is
+                # compared with the model only
+                bound = 2 ** 53 if c['dtype'] == 'float64' else 2 ** 24
+                tot = [0] * c['n']
+                for v, l in zip(c['data'], c['labels']):
+                    if 0 <= l < c['n']:
+                        tot[l] += abs(v)
+                mask = [t <= bound for t in tot]
+            else:
+                mask = [k > 0 for k in cnt]
             return _diff(key, got, spec, model, mask)
         got = [int(x) for x in r.tolist()]
         spec, model = core.ints(drv['spec']), core.ints(drv['model'])
@@ -270,8 +294,15 @@ def _run(c, drv):
             return [dict(kind='property', key='labeled.bbox', detail=dict(why='shape', got=r.shape))]
         present = set(c['labels'])
         mask = [(i // (2 * nd)) in present for i in range(r.size)]
-        return _diff('labeled.bbox', [int(x) for x in r.ravel().tolist()], core.ints(drv['spec']),
-                     core.ints(drv['model']), mask)
+        f = _diff('labeled.bbox', [int(x) for x in r.ravel().tolist()], core.ints(drv['spec']),
+                  core.ints(drv['model']), mask)
+        if not f:
+            # as_slice=True: one tuple of slices per label, built from the rows just compared
+            sl = ml.bbox(L, as_slice=True)
+            want = [[(int(row[2 * j]), int(row[2 * j + 1])) for j in range(nd)] for row in r]
+            if [[(int(x.start), int(x.stop)) for x in t] for t in sl] != want:
+                f.append(dict(kind='model', key='labeled.bbox:as_slice-model', detail=dict(got=str(sl)[:300])))
+        return f
     if fn == 'com':
         A = gen.relayout(_arr(c['data'], c['dtype'], shape), lay)
         L = None if c['labels'] is None else gen.relayout(
